@@ -348,7 +348,7 @@ func (w *Worker) runPath(prefix []Decision) {
 				case abBlocked:
 					outcome = "inconclusive"
 					x.mu.Lock()
-					x.Inconcl["deadlock under the single schedule explored: "+r.msg]++
+					x.Inconcl["deadlock under the schedule explored: "+r.msg]++
 					x.mu.Unlock()
 				default:
 					outcome = "inconclusive"
@@ -383,6 +383,7 @@ func (w *Worker) runPath(prefix []Decision) {
 				x.mu.Unlock()
 			}
 		}()
+		defer in.killGoroutines()
 		in.callSSA(nil, x.Entry, nil, nil)
 		outcome = "completed"
 	}()
